@@ -83,6 +83,9 @@ type World struct {
 	Cfg     Cfg
 	nextTag int
 	Extra   []fox.GlobalOption
+	// URLAuthority, when set, makes Serve send absolute-form requests: URL.Host carries this authority, which routing
+	// must ignore (the Host field decides)
+	URLAuthority string
 }
 
 // CollectParams drains a context's parameter iterator.
@@ -619,6 +622,11 @@ type ServeObs struct {
 func (w *World) Serve(p Probe, rawPath, rawQuery string, inner func(c fox.Context, h *Hit)) (obs ServeObs) {
 	log := &ReqLog{Inner: inner}
 	req := NewRequest(p.Method, p.Host, p.Path, rawPath, rawQuery, log)
+	if w.URLAuthority != "" {
+		// absolute-form request target: the URL carries an authority of its own, the Host field stays what it is
+		req.URL.Scheme, req.URL.Host = "http", w.URLAuthority
+		req.RequestURI = "http://" + w.URLAuthority + req.RequestURI
+	}
 	conn := NewConn()
 	obs.Log, obs.Conn = log, conn
 	func() {
